@@ -374,7 +374,7 @@ def worker_env(M, extra=()):
         return Enum(z3.If(ok, z3.IntVal(0), z3.IntVal(1)), {'Ok': Struct([M.fresh('phc')]), 'Err': Struct([Opaque('io::Error')])})
 
     def h_update(ex, st, callee, args, fn):
-        ev(st, 'updater', (callee.rsplit('::', 1)[1],))
+        ev(st, 'updater', (callee.rsplit('::', 1)[1],) + tuple(args[1:]))
         return UNIT
     return list(extra) + M.common_env(None) + [
         (r'(^|::)clock_gettime_safe$', h_clock), (r'ChronyOperations>::get_tracking$', h_tracking), (r'ChronyOperations>::is_within_grace_period$', h_grace),
@@ -883,15 +883,16 @@ def closure_facts(M):
 SITES = {('poller', 'start'): 1, ('poller', 'loop'): 2, ('writer', 'start'): 3, ('writer', 'loop'): 4}
 
 
-def native_fault(rp, who, where, nth, panic, watchdog_ms=10000):
+def native_fault(rp, who, where, nth, panic, watchdog_ms=10000, notify_delay_ms=0):
     site = SITES[(who, where)]
-    out = rp.ask('threads %d %d %d %d' % (site, nth, 1 if panic else 2, watchdog_ms))
+    out = rp.ask('threads %d %d %d %d %d' % (site, nth, 1 if panic else 2, watchdog_ms, notify_delay_ms))
     hung = out.startswith('ok hung')
     m = re.search(r'returned_ms=(\d+)', out)
-    return {'cmd': 'threads %d %d %d %d' % (site, nth, 1 if panic else 2, watchdog_ms), 'out': out, 'hung': hung, 'returned_ms': int(m.group(1)) if m else None, 'ok': out.startswith('ok')}
+    return {'cmd': 'threads %d %d %d %d %d' % (site, nth, 1 if panic else 2, watchdog_ms, notify_delay_ms), 'out': out, 'hung': hung, 'returned_ms': int(m.group(1)) if m else None, 'ok': out.startswith('ok')}
 
 
-STANDING = (('poller', 'loop', 1, True), ('writer', 'loop', 1, False), ('writer', 'start', 1, True), ('poller', 'start', 1, False))
+# (who, where, visit, panic?, ms the dying thread is held between its notice and the closing of its mailbox)
+STANDING = (('poller', 'loop', 1, True, 0), ('writer', 'loop', 1, False, 0), ('writer', 'start', 1, True, 0), ('poller', 'start', 1, False, 0), ('poller', 'loop', 1, True, 1200), ('writer', 'start', 1, True, 1200))
 
 
 def native_only(ck, why, tier):
@@ -899,15 +900,15 @@ def native_only(ck, why, tier):
     each standing fault; a hang is a violation, no hang leaves the check inconclusive (never green)"""
     rp = common.Replay('debug')
     runs = []
-    for who, where, nth, panic in STANDING + ((('poller', 'loop', 2, False), ('writer', 'loop', 2, True)) if tier == 'thorough' else ()):
+    for who, where, nth, panic, delay in STANDING + ((('poller', 'loop', 2, False, 0), ('writer', 'loop', 2, True, 0)) if tier == 'thorough' else ()):
         for attempt in range(2):
-            nat = native_fault(rp, who, where, nth, panic, 10000)
+            nat = native_fault(rp, who, where, nth, panic, 10000, delay)
             runs.append(nat)
             if nat['hung']:
                 break
         if nat['hung']:
-            ck.violation('daemon-lingers', 'the %s thread %s (%s, visit %d): the real thread_manager::run had not returned 10000 ms later - the daemon lingers with part of its pipeline dead (the step relations of this tree are outside the encodable fragment: %s)'
-                         % (who, 'panics' if panic else 'returns', 'at start-up' if where == 'start' else 'at the top of its loop', nth, why[:160]), {'cmd': nat['cmd'], 'native': nat['out']})
+            ck.violation('daemon-lingers', 'the %s thread %s (%s, visit %d%s): the real thread_manager::run had not returned 10000 ms later - the daemon lingers with part of its pipeline dead (the step relations of this tree are outside the encodable fragment: %s)'
+                         % (who, 'panics' if panic else 'returns', 'at start-up' if where == 'start' else 'at the top of its loop', nth, (', held %d ms before its mailbox closes' % delay) if delay else '', why[:160]), {'cmd': nat['cmd'], 'native': nat['out']})
             break
     rp.close()
     ck.cov['native_runs'] = [{'cmd': n['cmd'], 'returned_ms': n['returned_ms'], 'hung': n['hung']} for n in runs]
@@ -1027,12 +1028,12 @@ def run_check(tier, seed):
             ck.inconclusive.append('the composition has a counterexample (%s %s at step %d) that did not reproduce natively: %s' % (who, 'panics' if panic else 'returns', info['fault_step'], [n['out'][:80] for n in native_runs]))
     # ---- standing native runs (also when the model is green): real threads, real channels, real unwinding
     if not ck.violations:
-        for who, where, nth, panic in STANDING + ((('poller', 'loop', 2, False), ('writer', 'loop', 2, True)) if tier == 'thorough' else ()):
-            nat = native_fault(rp, who, where, nth, panic, DEADLINE_MS)
+        for who, where, nth, panic, delay in STANDING + ((('poller', 'loop', 2, False, 0), ('writer', 'loop', 2, True, 0)) if tier == 'thorough' else ()):
+            nat = native_fault(rp, who, where, nth, panic, DEADLINE_MS, delay)
             native_runs.append(nat)
             if nat['hung']:
-                ck.violation('daemon-lingers', 'the %s thread %s (%s, visit %d): the real thread_manager::run had not returned %d ms later (the bounded model had no counterexample: a mechanism outside it)'
-                             % (who, 'panics' if panic else 'returns', 'at start-up' if where == 'start' else 'at the top of its loop', nth, DEADLINE_MS), {'cmd': nat['cmd'], 'native': nat['out']})
+                ck.violation('daemon-lingers', 'the %s thread %s (%s, visit %d%s): the real thread_manager::run had not returned %d ms later (the bounded model had no counterexample: a mechanism outside it)'
+                             % (who, 'panics' if panic else 'returns', 'at start-up' if where == 'start' else 'at the top of its loop', nth, (', held %d ms before its mailbox closes' % delay) if delay else '', DEADLINE_MS), {'cmd': nat['cmd'], 'native': nat['out']})
                 break
             if not nat['ok']:
                 ck.inconclusive.append('native thread run failed: ' + nat['out'][:100])
